@@ -39,14 +39,24 @@ type wit struct {
 type sink struct {
 	got     [][]byte
 	failAt  int
-	failCnt int // the count the failing write reports together with its error (0, partial or the full 188)
+	failCnt int   // the count the failing write reports together with its error (0, partial or the full 188)
+	failErr error // the error of the failing write (default errW)
+	calls   int   // WritePacket calls, including the failing one
 	closed  int
 }
 
+func (s *sink) werr() error {
+	if s.failErr != nil {
+		return s.failErr
+	}
+	return errW
+}
+
 func (s *sink) WritePacket(p *packet.Packet) (int, error) {
+	s.calls++
 	if len(s.got) == s.failAt {
 		s.failAt = -2 // fail once; a later delivery is then visible in got
-		return s.failCnt, errW
+		return s.failCnt, s.werr()
 	}
 	s.got = append(s.got, append([]byte{}, p[:]...))
 	return packet.PacketSize, nil
@@ -104,11 +114,15 @@ func (d *dataErr) Read(p []byte) (int, error) {
 }
 
 type failAfter struct {
-	b []byte
+	b   []byte
+	err error
 }
 
 func (f *failAfter) Read(p []byte) (int, error) {
 	if len(f.b) == 0 {
+		if f.err != nil {
+			return 0, f.err
+		}
 		return 0, errR
 	}
 	n := copy(p, f.b)
@@ -116,14 +130,46 @@ func (f *failAfter) Read(p []byte) (int, error) {
 	return n, nil
 }
 
-const nReaderKinds = 7
+// stalling returns (0, nil) now and then, which io.Reader allows ("nothing happened, try again").
+type stalling struct {
+	r   io.Reader
+	rng *gen.Rand
+}
+
+func (s *stalling) Read(p []byte) (int, error) {
+	if s.rng.Chance(3) {
+		return 0, nil
+	}
+	n := 1 + s.rng.Intn(250)
+	if n > len(p) {
+		n = len(p)
+	}
+	return s.r.Read(p[:n])
+}
+
+// the reader's own failure comes in several kinds: a plain error, errors that wrap io.EOF or
+// io.ErrUnexpectedEOF, and the bare io.ErrUnexpectedEOF (what a truncated decompressor returns)
+var readerErrs = []error{errR, fmt.Errorf("connection lost: %w", io.EOF), fmt.Errorf("truncated member: %w", io.ErrUnexpectedEOF), io.ErrUnexpectedEOF}
+
+// tempErr is a temporary, net.Error-style failure of the packet writer.
+type tempErr struct{}
+
+func (tempErr) Error() string   { return "injected temporary packet-writer failure" }
+func (tempErr) Temporary() bool { return true }
+func (tempErr) Timeout() bool   { return true }
+
+const nReaderKinds = 8
 
 func mkReader(kind int, data []byte, failR int, r *gen.Rand) (io.Reader, string) {
+	return mkReaderErr(kind, data, failR, r, errR)
+}
+
+func mkReaderErr(kind int, data []byte, failR int, r *gen.Rand, rerr error) (io.Reader, string) {
 	var src io.Reader
 	avail := data
 	if failR >= 0 {
 		avail = data[:failR]
-		src = &failAfter{append([]byte{}, avail...)}
+		src = &failAfter{append([]byte{}, avail...), rerr}
 	} else {
 		src = bytes.NewReader(data)
 	}
@@ -140,11 +186,13 @@ func mkReader(kind int, data []byte, failR int, r *gen.Rand) (io.Reader, string)
 	case 4:
 		e := io.EOF
 		if failR >= 0 {
-			e = errR
+			e = rerr
 		}
 		return &dataErr{append([]byte{}, avail...), e}, "data returned together with the final error"
 	case 5:
 		return &chunked{src, r, 187}, "chunks always shorter than a packet"
+	case 7:
+		return &stalling{src, r}, "reader that sometimes returns (0, nil)"
 	default:
 		return &chunked{oneByte{src}, r, 3}, "one byte at a time (nested)"
 	}
@@ -189,6 +237,9 @@ func doWrite(c *mon.Ctx, k, tail, failW, ad int, r *gen.Rand) {
 	data := r.Bytes(k*188 + tail)
 	snap := append([]byte{}, data...)
 	s := &sink{failAt: failW, failCnt: []int{0, 0, 100, 188}[r.Intn(4)]}
+	if r.Chance(3) {
+		s.failErr = tempErr{} // a temporary failure is a failure all the same: reported, nothing retried
+	}
 	w, aname := adapter(ad, s)
 	n, err := w.Write(data)
 	c.Eval(1)
@@ -210,9 +261,13 @@ func doWrite(c *mon.Ctx, k, tail, failW, ad int, r *gen.Rand) {
 		exp = failW
 		c.Count("write.injected_failure")
 		c.Count(fmt.Sprintf("write.injected_failure_reporting_%d_bytes", s.failCnt))
-		if err != errW {
-			wt.Got, wt.Want = fmt.Sprint(err), errW.Error()
+		if err != s.werr() {
+			wt.Got, wt.Want = fmt.Sprint(err), s.werr().Error()
 			c.Fail("Write:writer-error-not-returned", fmt.Sprintf("packet write %d failed but Write returned err=%v", failW, err), wt)
+		}
+		if s.calls != failW+1 {
+			wt.Got, wt.Want = fmt.Sprintf("%d WritePacket calls", s.calls), fmt.Sprintf("%d", failW+1)
+			c.Fail("Write:packet-offered-again-after-failure", fmt.Sprintf("packet write %d failed; the wrapped writer was called %d times in all (want %d: every packet once, nothing after the failure)", failW, s.calls, failW+1), wt)
 		}
 	} else {
 		c.Count("write.clean")
@@ -328,6 +383,13 @@ func failClass(f, k int) string {
 func doReadFrom(c *mon.Ctx, k, tail, failW, failR, rk, ad int, r *gen.Rand) {
 	data := r.Bytes(k*188 + tail)
 	s := &sink{failAt: failW, failCnt: []int{0, 0, 100, 188}[r.Intn(4)]}
+	if r.Chance(3) {
+		s.failErr = tempErr{}
+	}
+	rerr := readerErrs[0]
+	if failR >= 0 && r.Chance(2) {
+		rerr = readerErrs[r.Intn(len(readerErrs))]
+	}
 	w, aname := adapter(ad, s)
 	rf, ok := w.(io.ReaderFrom)
 	c.Eval(1)
@@ -335,7 +397,10 @@ func doReadFrom(c *mon.Ctx, k, tail, failW, failR, rk, ad int, r *gen.Rand) {
 		c.Fail("ReadFrom:missing", "the adapter does not implement io.ReaderFrom", nil)
 		return
 	}
-	src, rname := mkReader(rk, data, failR, r)
+	src, rname := mkReaderErr(rk, data, failR, r, rerr)
+	if rerr != errR {
+		rname += fmt.Sprintf(" failing with %q", rerr)
+	}
 	n, err := rf.ReadFrom(src)
 	avail := len(data)
 	if failR >= 0 {
@@ -344,14 +409,17 @@ func doReadFrom(c *mon.Ctx, k, tail, failW, failR, rk, ad int, r *gen.Rand) {
 	exp := avail / 188
 	var expErr error
 	if failR >= 0 {
-		expErr = errR
+		expErr = rerr
 		c.Count("readfrom.reader_failure")
+		if rerr != errR {
+			c.Count("readfrom.reader_failure_wrapping_eof")
+		}
 	} else if avail%188 != 0 {
 		expErr = gots.ErrInvalidPacketLength
 		c.Count("readfrom.partial_tail")
 	}
 	if failW >= 0 && failW < exp {
-		exp, expErr = failW, errW
+		exp, expErr = failW, s.werr()
 		c.Count("readfrom.writer_failure")
 	}
 	if expErr == nil {
@@ -364,15 +432,15 @@ func doReadFrom(c *mon.Ctx, k, tail, failW, failR, rk, ad int, r *gen.Rand) {
 	}
 	wt.Got = fmt.Sprintf("deliveries=%d n=%d err=%v", len(s.got), n, err)
 	// a failing write may itself report bytes written; whether they count is not stated
-	if n != int64(exp*188) && !(expErr == errW && n == int64(exp*188+s.failCnt)) {
+	if n != int64(exp*188) && !(expErr == s.werr() && n == int64(exp*188+s.failCnt)) {
 		c.Fail("ReadFrom:count", fmt.Sprintf("ReadFrom delivered %d packets but returned n=%d", exp, n), wt)
 	}
 	if err != expErr {
 		sig := "ReadFrom:error"
 		switch expErr {
-		case errR:
+		case rerr:
 			sig = "ReadFrom:reader-error-not-returned"
-		case errW:
+		case s.werr():
 			sig = "ReadFrom:writer-error-not-returned"
 		case gots.ErrInvalidPacketLength:
 			sig = "ReadFrom:partial-packet-not-reported"
@@ -416,6 +484,7 @@ func run(c *mon.Ctx) {
 	c.Floor("readfrom.reader_failure", 500)
 	c.Floor("readfrom.partial_tail", 200)
 	c.Floor("followup.ReadFrom", 5000)
+	c.Floor("readfrom.reader_failure_wrapping_eof", 300)
 	maxK := 20
 	c.Exhaustive("Write: k 0..20 x failing position -1..k x 4 tails x 4 adapters", int64(21*22/2+21)*16)
 	c.StreamSeedless("write-faults", maxK+1, func(k int, r *gen.Rand) {
